@@ -22,7 +22,11 @@ rule = ("scripts = 'n begin', node ops, 'n end' (destroy everything, every byte 
         "the 3-node states (names aab; positions 0,1,-1 quick / 0,1,2,-1,-2 thorough); stream 3: random histories (12-40 ops, up to ~60 nodes) biased to valid calls by a "
         "python mirror of the forest, with clones of trees of depth >=2, merges of lists with overlapping names, "
         "clear/destroy of inner nodes; stream 4: allocation failure injected (malloc wrapped) at every allocation of "
-        "node/tree/list clones of 5 small structures incl. names that do not fit into the node; non-trivial = a node with a grandchild existed at some point of the history "
+        "node/tree/list clones of 5 small structures incl. names that do not fit into the node; stream 5: names of "
+        "1..300 bytes (every length around 20 and 212..218) on nodes made for the name ('new') and on nodes of the smallest "
+        "size named afterwards ('newsmall', name stored outside the node), cloned alone/as tree/as list; every state of "
+        "stream 1 also gets mpt_node_parse with an unknown limits character, with a syntactically broken input (both refused: "
+        "nothing may change) and with an empty input (children replaced by nothing); non-trivial = a node with a grandchild existed at some point of the history "
         "(seen in the code's own walk), counted per distinct script")
 assumptions = [
     "calls respect the GNode-style preconditions of the insert functions: the inserted node is a root without "
@@ -268,7 +272,8 @@ def _all_ops(m, n, positions, full):
     for x in T:
         ops += ["n unlink %d" % x, "n clear %d" % x, "n destroy %d" % x,
                 "n clone %d" % x, "n clone %d tree" % x, "n clone %d list" % x, "n relink %d" % x,
-                "n relink %d scramble" % x]
+                "n relink %d scramble" % x, "n nparse %d nsx empty" % x, "n nparse %d ns broken" % x,
+                "n nparse %d nS empty" % x]
         for p in positions:
             ops.append("n pos %d %d" % (x, p))
             for nm in ("a", "b"):
@@ -356,10 +361,14 @@ def _random_history(r, length):
         al = m.alive()
         det = [x for x in al if m.detached(x)]
         kind = r.choice(["new", "new", "insert", "insert", "insert", "add", "after", "before", "unlink", "move", "move",
-                         "clone", "clonetree", "clonelist", "clear", "destroy", "locate", "pos", "wild", "swap", "relink"])
+                         "clone", "clonetree", "clonelist", "clear", "destroy", "locate", "pos", "wild", "swap", "relink", "nparse"])
         if not al or kind == "new" or (len(al) < 4 and r.random() < 0.5):
             nm = r.choice(names)
-            lines.append("n new %s %s" % (nm, r.choice(["-", "v%d" % m.next, "x"])))
+            if r.random() < 0.15:
+                nm = r.choice(["L", "M"]) * r.choice([19, 20, 21, 22, 200, 212, 213, 217]) + nm.strip("-.")
+                lines.append("n %s %s %s" % (r.choice(["new", "newsmall"]), nm, r.choice(["-", "x"])))
+            else:
+                lines.append("n new %s %s" % (nm, r.choice(["-", "v%d" % m.next, "x"])))
             m.new(None if nm == "-" else nm)
             continue
         if kind == "wild":
@@ -445,6 +454,12 @@ def _random_history(r, length):
             a, b = pick(al), pick(al)
             lines.append("n swap %d %d" % (a, b))
             m.swap(a, b)
+        elif kind == "nparse":
+            x = pick(al)
+            lim, inp = r.choice([("nsx", "empty"), ("ns", "broken"), ("q", "empty"), ("ns", "empty"), ("Ew", "empty")])
+            lines.append("n nparse %d %s %s" % (x, lim, inp))
+            if inp == "empty" and all(c in "fcnswebFCNSWEB" for c in lim):
+                m.clear(x)
         elif kind == "relink":
             lines.append("n relink %d%s" % (pick(al), r.choice(["", " scramble", " scramble"])))
         elif kind == "locate":
@@ -453,6 +468,27 @@ def _random_history(r, length):
             lines.append("n pos %d %d" % (pick(al), r.choice([0, 1, 2, 3, -1, -2, -3])))
     lines.append("n end")
     return lines
+
+
+def _stream_names(tier):
+    """names around the inline capacity of a node's identifier (node made for the name, or made small and named
+    afterwards: name stored outside the node), cloned alone / as tree / as list and located by name"""
+    out = []
+    lens = [1, 12, 19, 20, 21, 22, 23, 40, 100, 200, 205, 211, 212, 213, 215, 216, 217, 218, 300]
+    alpha = "abcdefghijklmnopqrstuvwxyzABCDEFGHIJKLMNOPQRSTUVWXYZ0123456789"
+    def name(ln, k):
+        return ("%c%d_" % (alpha[k % 52], ln) + alpha[k % 7:] * 6)[:ln]
+    k = 0
+    for ln in lens:
+        for how in ("new", "newsmall"):
+            for val in ("-", "v"):
+                k += 1
+                nm, nm2 = name(ln, k), name(ln, k + 31)
+                pre = ["n begin", "n %s %s %s" % (how, nm, val), "n newsmall %s -" % nm2, "n new kid x", "n insert 0 0 1", "n insert 1 0 2"]
+                for op in ("n clone 0", "n clone 0 tree", "n clone 1 list", "n clone 1"):
+                    out.append(("name:%d/%s/%s/%s" % (ln, how, val, op[2:].replace(" ", "_")),
+                                pre + [op, "n locate 3 1 %s" % nm, "n locate 3 1 %s" % nm2, "n clone 3 tree", "n end"]))
+    return out
 
 
 def _stream_fail(tier):
@@ -476,7 +512,7 @@ def _stream_fail(tier):
 
 
 def scripts(tier, seed, scale=1):
-    out = _stream1(tier) + _stream2(tier) + _stream_fail(tier)
+    out = _stream1(tier) + _stream2(tier) + _stream_fail(tier) + _stream_names(tier)
     nrand = (400 if tier == "quick" else 6000) * scale
     r = gen.rng(id, tier, seed, "random")
     for k in range(nrand):
@@ -516,3 +552,62 @@ def tally(chk, script, c_lines):
 def finding_key(script, res):
     op = (res.get("op") or "").split()
     return "%s:%s" % (res["kind"], op[1] if len(op) > 1 else "?")
+
+
+# --------------------------------------------------------------------------- second part: the tree of the global configuration
+class _CFG:
+    """the node tree behind the process-wide configuration, changed through sub-tree views (config_global.c:
+    make_global + mpt_node_assign, incl. the parent fix-up when the base or a prefix of it is a leaf); driven through
+    harness/drv_config.c (C10's driver), whose every output line carries a link check of the whole global tree
+    (prev/parent of every node against the child/next links)"""
+    id = "C14"
+    area = "config"
+    driver = "drv_config"
+    cxx = False
+    fixed_lines = 1
+    per_process = 1
+
+    @staticmethod
+    def corpus(chk):
+        return []
+
+    @staticmethod
+    def scripts(tier, seed, scale=1):
+        hx = lambda t: t.encode().hex() if t else "-"
+        out = []
+        k = 0
+        for leaf in ("leaf", "a.leaf", "a.b.leaf"):
+            for ext in ("", "b", "b.c", "b.c.d"):
+                for valued in (True, False):
+                    for rel in ("x", "x.y", "x.y.z"):
+                        base = leaf + ("." + ext if ext else "")
+                        lines = ["g begin", "g set - %s 2e %s" % (hx("o.p"), hx("0"))]
+                        if valued:
+                            lines.append("g set - %s 2e %s" % (hx(leaf), hx("v")))
+                        else:
+                            lines += ["g set - %s 2e %s" % (hx(leaf + ".t"), hx("v")), "g del - %s 2e" % hx(leaf + ".t")]
+                        lines += ["g view %s 2e" % hx(base), "g set 0 %s 2e %s" % (hx(rel), hx("1")),
+                                  "g has - %s 2e" % hx(base), "g get - %s 2e" % hx(base + "." + rel),
+                                  "g set 0 %s 2e %s" % (hx("w"), hx("2")), "g del 0 %s 2e" % hx(rel.split(".")[0]),
+                                  "g set 0 %s 2e %s" % (hx(rel), hx("3")), "g del - %s 2e" % hx(leaf),
+                                  "g set 0 %s 2e %s" % (hx(rel), hx("4")), "g end"]
+                        out.append(("cfgview:%d" % k, lines))
+                        k += 1
+        return out
+
+    @staticmethod
+    def nontrivial(script, c_lines):
+        return any(ln.count("/") >= 3 for ln in c_lines)
+
+    @staticmethod
+    def tally(chk, script, c_lines):
+        d = chk.__dict__.setdefault("distribution", {})
+        d["cfg-view-op"] = d.get("cfg-view-op", 0) + len(script)
+
+    @staticmethod
+    def finding_key(script, res):
+        op = (res.get("op") or "").split()
+        return "%s:cfg-%s" % (res["kind"], op[1] if len(op) > 1 else "?")
+
+
+extra_parts = [_CFG]
